@@ -2,14 +2,9 @@ package main
 
 import (
 	"fmt"
-	"go/ast"
-	"go/constant"
 	"go/token"
 	"go/types"
-	"sort"
-	"strings"
 
-	"golang.org/x/tools/go/packages"
 	"golang.org/x/tools/go/ssa"
 )
 
@@ -18,475 +13,10 @@ func init() { register("C14", checkC14) }
 // E-linform: linear forms over named symbols, obtained by symbolically executing
 // the straight-line syntax of a small function.
 
-type linForm struct {
-	coef map[string]int
-	k    int
-}
-
-func lfSym(s string) linForm { return linForm{coef: map[string]int{s: 1}} }
-func lfConst(k int) linForm  { return linForm{coef: map[string]int{}, k: k} }
-func (a linForm) add(b linForm, sign int) linForm {
-	r := linForm{coef: map[string]int{}, k: a.k + sign*b.k}
-	for s, c := range a.coef {
-		r.coef[s] += c
-	}
-	for s, c := range b.coef {
-		r.coef[s] += sign * c
-	}
-	for s, c := range r.coef {
-		if c == 0 {
-			delete(r.coef, s)
-		}
-	}
-	return r
-}
-func (a linForm) String() string {
-	var ks []string
-	for s := range a.coef {
-		ks = append(ks, s)
-	}
-	sort.Strings(ks)
-	var parts []string
-	for _, s := range ks {
-		c := a.coef[s]
-		switch {
-		case c == 1:
-			parts = append(parts, "+"+s)
-		case c == -1:
-			parts = append(parts, "-"+s)
-		default:
-			parts = append(parts, fmt.Sprintf("%+d*%s", c, s))
-		}
-	}
-	if a.k != 0 || len(parts) == 0 {
-		parts = append(parts, fmt.Sprintf("%+d", a.k))
-	}
-	return strings.TrimPrefix(strings.Join(parts, " "), "+")
-}
-
-// symEnv maps dotted paths ("start.Column") to linear forms; unknown paths are symbols of themselves.
-type symEnv struct {
-	vals    map[string]linForm
-	structs map[string]string // struct variable -> the path it was copied from (for unset fields)
-	pkg     *packages.Package
-	err     string
-}
-
-func (e *symEnv) pathOf(x ast.Expr) (string, bool) {
-	switch v := x.(type) {
-	case *ast.Ident:
-		return v.Name, true
-	case *ast.SelectorExpr:
-		if p, ok := e.pathOf(v.X); ok {
-			return p + "." + v.Sel.Name, true
-		}
-	case *ast.ParenExpr:
-		return e.pathOf(v.X)
-	}
-	return "", false
-}
-
-// lookup resolves a dotted path through struct copies.
-func (e *symEnv) lookup(path string) linForm {
-	if v, ok := e.vals[path]; ok {
-		return v
-	}
-	// x.F where x was copied from y: y.F
-	parts := strings.Split(path, ".")
-	for i := len(parts) - 1; i >= 1; i-- {
-		prefix := strings.Join(parts[:i], ".")
-		if src, ok := e.structs[prefix]; ok {
-			return e.lookup(src + "." + strings.Join(parts[i:], "."))
-		}
-	}
-	return lfSym(path)
-}
-
-func (e *symEnv) eval(x ast.Expr) linForm {
-	if tv, ok := e.pkg.TypesInfo.Types[x]; ok && tv.Value != nil && tv.Value.Kind() == constant.Int {
-		if n, ok := constant.Int64Val(tv.Value); ok {
-			return lfConst(int(n))
-		}
-	}
-	switch v := x.(type) {
-	case *ast.ParenExpr:
-		return e.eval(v.X)
-	case *ast.BinaryExpr:
-		switch v.Op {
-		case token.ADD:
-			return e.eval(v.X).add(e.eval(v.Y), 1)
-		case token.SUB:
-			return e.eval(v.X).add(e.eval(v.Y), -1)
-		}
-	case *ast.Ident, *ast.SelectorExpr:
-		if p, ok := e.pathOf(x); ok {
-			return e.lookup(p)
-		}
-	case *ast.CallExpr:
-		if id, ok := v.Fun.(*ast.Ident); ok && id.Name == "len" && len(v.Args) == 1 {
-			return lfSym("len(" + exprStr(v.Args[0]) + ")")
-		}
-	}
-	return lfSym("<" + exprStr(x) + ">")
-}
-
-// structFields copies every explicitly set field of struct src to dst.
-func (e *symEnv) copyStruct(dst, src string) {
-	for p := range e.vals {
-		if strings.HasPrefix(p, dst+".") {
-			delete(e.vals, p)
-		}
-	}
-	// materialise the fields set on src so that later writes to src do not leak into dst
-	for p, v := range e.vals {
-		if strings.HasPrefix(p, src+".") {
-			e.vals[dst+strings.TrimPrefix(p, src)] = v
-		}
-	}
-	if s2, ok := e.structs[src]; ok {
-		e.structs[dst] = s2
-	} else {
-		e.structs[dst] = src
-	}
-}
-
-func (e *symEnv) assign(lhs ast.Expr, tok token.Token, rhs ast.Expr) {
-	lp, ok := e.pathOf(lhs)
-	if !ok {
-		e.err = "unsupported assignment target " + exprStr(lhs)
-		return
-	}
-	switch tok {
-	case token.ASSIGN, token.DEFINE:
-		// struct copy?
-		if rp, ok := e.pathOf(rhs); ok {
-			if tv, ok := e.pkg.TypesInfo.Types[rhs]; ok {
-				if _, isStruct := tv.Type.Underlying().(interface{ NumFields() int }); isStruct {
-					e.copyStruct(lp, rp)
-					return
-				}
-			}
-		}
-		e.vals[lp] = e.eval(rhs)
-	case token.ADD_ASSIGN:
-		e.vals[lp] = e.lookup(lp).add(e.eval(rhs), 1)
-	case token.SUB_ASSIGN:
-		e.vals[lp] = e.lookup(lp).add(e.eval(rhs), -1)
-	default:
-		e.err = "unsupported assignment operator"
-	}
-}
-
 func checkC14(c *Ctx) {
-	c14Linform(c)
+	c14LinformSSA(c)
+	c14EOFRule(c)
 	c14BufferSame(c, "buffer.same")
-}
-
-func c14Linform(c *Ctx) {
-	c.Rule("R1 linform: tokenAccum.emitToken, executed symbolically over its syntax: Token.Bytes = f.Bytes[startOfs:endOfs]; Range.Start.Byte = startOfs + f.StartByte; Range.End.Byte = endOfs + f.StartByte; Range.Start.Line = f.Pos.Line; Range.Start.Column = f.Pos.Column + (startOfs + f.StartByte − f.Pos.Byte); the end position starts as a copy of the start position and is advanced by a loop over the grapheme clusters of exactly the token's bytes, each cluster doing either Line++, Column = 1 (for the clusters \"\\n\" and \"\\r\\n\") or Column++; f.Pos is set to the end position before the token is appended")
-	c.Rule("R2 eof: every return of hclsyntax.scanTokens is preceded by emitToken(TokenEOF, len(data), len(data))")
-	fd, pkg := c.P.LookupDecl("hclsyntax", "tokenAccum.emitToken")
-	if fd == nil {
-		c.CheckerFail("linform", "anchor tokenAccum.emitToken does not resolve")
-		return
-	}
-	name := declName(pkg, fd)
-	c.Fn(name)
-	env := &symEnv{vals: map[string]linForm{}, structs: map[string]string{}, pkg: pkg}
-	// names of the local position variables and of the receiver are taken from the code
-	endVar, recvVar := "end", "f"
-	if fd.Recv != nil && len(fd.Recv.List) > 0 && len(fd.Recv.List[0].Names) > 0 {
-		recvVar = fd.Recv.List[0].Names[0].Name
-	}
-	ast.Inspect(fd.Body, func(n ast.Node) bool {
-		if kv, ok := n.(*ast.KeyValueExpr); ok && exprStr(kv.Key) == "End" {
-			if id, ok := kv.Value.(*ast.Ident); ok {
-				endVar = id.Name
-			}
-		}
-		return true
-	})
-	norm := func(s string) string {
-		// canonical names in the expected forms: receiver "f", offsets as declared
-		return s
-	}
-	_ = norm
-	var loop *ast.ForStmt
-	var bytesInit ast.Expr // b := f.Bytes[...]
-	var tokenLit *ast.CompositeLit
-	posSetBeforeAppend := false
-	posSet := false
-	var endAtLoop map[string]linForm
-	for _, st := range fd.Body.List {
-		switch s := st.(type) {
-		case *ast.AssignStmt:
-			if len(s.Lhs) == 1 && len(s.Rhs) == 1 {
-				// b := f.Bytes[startOfs:endOfs]
-				if se, ok := s.Rhs[0].(*ast.SliceExpr); ok {
-					if lp, ok := env.pathOf(s.Lhs[0]); ok && loop == nil {
-						bytesInit = se
-						_ = lp
-						continue
-					}
-				}
-				// f.Tokens = append(f.Tokens, Token{...})
-				if call, ok := s.Rhs[0].(*ast.CallExpr); ok {
-					if id, ok := call.Fun.(*ast.Ident); ok && id.Name == "append" && len(call.Args) == 2 {
-						if cl, ok := call.Args[1].(*ast.CompositeLit); ok {
-							tokenLit = cl
-							posSetBeforeAppend = posSet
-							continue
-						}
-					}
-				}
-				if lp, ok := env.pathOf(s.Lhs[0]); ok && lp == recvVar+".Pos" {
-					posSet = true
-					if rp, ok := env.pathOf(s.Rhs[0]); !ok || rp != endVar {
-						c.Fail("linform", name+":thread[f.Pos]", s.Pos(), "f.Pos is set to something other than the computed end position: the next token's line/column start from a stale position")
-					}
-					continue
-				}
-				env.assign(s.Lhs[0], s.Tok, s.Rhs[0])
-			} else {
-				env.err = "multi-assignment outside the cluster loop"
-			}
-		case *ast.ForStmt:
-			if loop != nil {
-				env.err = "more than one loop"
-			}
-			loop = s
-			endAtLoop = map[string]linForm{"Line": env.lookup(endVar + ".Line"), "Column": env.lookup(endVar + ".Column"), "Byte": env.lookup(endVar + ".Byte")}
-		case *ast.DeclStmt, *ast.EmptyStmt:
-		default:
-			env.err = fmt.Sprintf("unsupported statement %T at %s (the bookkeeping is no longer straight-line code plus one cluster loop)", st, c.P.Position(st.Pos()))
-		}
-		if env.err != "" {
-			break
-		}
-	}
-	if env.err != "" {
-		c.Undecided("linform", name+":symbolic-execution", fd.Pos(), env.err)
-		return
-	}
-	if tokenLit == nil || loop == nil || bytesInit == nil {
-		c.Undecided("linform", name+":shape", fd.Pos(), "emitToken no longer has the shape: position arithmetic, one loop over clusters, append of a Token literal")
-		return
-	}
-	params := []string{"startOfs", "endOfs"}
-	if fd.Type.Params != nil {
-		var names []string
-		for _, fl := range fd.Type.Params.List {
-			for _, nm := range fl.Names {
-				names = append(names, nm.Name)
-			}
-		}
-		if len(names) == 3 {
-			params = names[1:]
-		}
-	}
-	want := func(key, got, exp string) {
-		// expected forms are written with the canonical names f / startOfs / endOfs
-		got = strings.NewReplacer(recvVar+".", "f.", params[0], "startOfs", params[1], "endOfs").Replace(got)
-		c.Check(got == exp, "linform", name+":"+key, fd.Pos(), key+" = "+exp, key+" = "+got+", but the property prescribes "+exp)
-	}
-	// token literal fields
-	var rangeLit *ast.CompositeLit
-	for _, el := range tokenLit.Elts {
-		kv, ok := el.(*ast.KeyValueExpr)
-		if !ok {
-			continue
-		}
-		switch exprStr(kv.Key) {
-		case "Bytes":
-			se, ok := kv.Value.(*ast.SliceExpr)
-			got := exprStr(kv.Value)
-			if ok {
-				got = exprStr(se.X) + "[" + env.eval(se.Low).String() + ":" + env.eval(se.High).String() + "]"
-			}
-			want("Token.Bytes", got, "f.Bytes[startOfs:endOfs]")
-		case "Range":
-			rangeLit, _ = kv.Value.(*ast.CompositeLit)
-		}
-	}
-	if rangeLit == nil {
-		c.Undecided("linform", name+":Range", tokenLit.Pos(), "Token.Range is not a literal")
-		return
-	}
-	for _, el := range rangeLit.Elts {
-		kv, ok := el.(*ast.KeyValueExpr)
-		if !ok {
-			continue
-		}
-		p, _ := env.pathOf(kv.Value)
-		switch exprStr(kv.Key) {
-		case "Start":
-			want("Range.Start.Byte", env.lookup(p+".Byte").String(), "f.StartByte +startOfs")
-			want("Range.Start.Line", env.lookup(p+".Line").String(), "f.Pos.Line")
-			want("Range.Start.Column", env.lookup(p+".Column").String(), "-f.Pos.Byte +f.Pos.Column +f.StartByte +startOfs")
-		case "End":
-			want("Range.End.Byte", env.lookup(p+".Byte").String(), "endOfs +f.StartByte")
-			c.Check(p == endVar, "linform", name+":Range.End", kv.Pos(), "Range.End is the advanced end position", "Range.End is not the position advanced by the cluster loop")
-		}
-	}
-	// end starts as a copy of start
-	want("end.Line@loop", endAtLoop["Line"].String(), "f.Pos.Line")
-	want("end.Column@loop", endAtLoop["Column"].String(), "-f.Pos.Byte +f.Pos.Column +f.StartByte +startOfs")
-	// loop over exactly the token's bytes
-	if se, ok := bytesInit.(*ast.SliceExpr); ok {
-		got := exprStr(se.X) + "[" + env.eval(se.Low).String() + ":" + env.eval(se.High).String() + "]"
-		want("cluster-loop.bytes", got, "f.Bytes[startOfs:endOfs]")
-	}
-	c14Loop(c, name, pkg, loop, endVar)
-	c.Check(posSetBeforeAppend, "linform", name+":thread[f.Pos]-before-append", fd.Pos(), "f.Pos = end before the token is appended", "f.Pos is not updated to the end position before the token is appended: positions of later tokens drift")
-	c14EOF(c)
-	c.NotCovered("tiling, ordering and gap content of the token stream: produced by the Ragel automaton (scan_tokens.go, ≈ 5 000 generated lines of goto), out of reach of shape rules")
-	c.NotCovered("range fidelity of parser nodes (RangeBetween arithmetic in the parser) and RangeScanner: value-level")
-}
-
-// c14Loop checks the shape of the cluster loop and evaluates its newline test on sample clusters.
-func c14Loop(c *Ctx, name string, pkg *packages.Package, loop *ast.ForStmt, endVar string) {
-	// condition len(b) > 0
-	condOK := false
-	if be, ok := loop.Cond.(*ast.BinaryExpr); ok && be.Op == token.GTR {
-		if call, ok := be.X.(*ast.CallExpr); ok {
-			if id, ok := call.Fun.(*ast.Ident); ok && id.Name == "len" {
-				condOK = true
-			}
-		}
-	}
-	c.Check(condOK && loop.Init == nil && loop.Post == nil, "linform", name+":cluster-loop.cond", loop.Pos(), "runs until the bytes are exhausted", "the cluster loop does not run while len(b) > 0")
-	var scanCall *ast.CallExpr
-	var ifs *ast.IfStmt
-	advanceVar, seqVar, bytesVar := "", "", ""
-	resliced := false
-	for _, st := range loop.Body.List {
-		switch s := st.(type) {
-		case *ast.AssignStmt:
-			if len(s.Rhs) == 1 {
-				if call, ok := s.Rhs[0].(*ast.CallExpr); ok {
-					if sel, ok := call.Fun.(*ast.SelectorExpr); ok && sel.Sel.Name == "ScanGraphemeClusters" && len(s.Lhs) >= 2 {
-						scanCall = call
-						advanceVar, seqVar = exprStr(s.Lhs[0]), exprStr(s.Lhs[1])
-						if len(call.Args) > 0 {
-							bytesVar = exprStr(call.Args[0])
-						}
-						continue
-					}
-				}
-				if se, ok := s.Rhs[0].(*ast.SliceExpr); ok && exprStr(s.Lhs[0]) == bytesVar && exprStr(se.X) == bytesVar && se.Low != nil && exprStr(se.Low) == advanceVar && se.High == nil {
-					resliced = true
-					continue
-				}
-			}
-		case *ast.IfStmt:
-			ifs = s
-			continue
-		}
-		c.Undecided("linform", name+":cluster-loop.body", st.Pos(), "unexpected statement in the cluster loop: "+fmt.Sprintf("%T", st))
-	}
-	c.Check(scanCall != nil, "linform", name+":cluster-loop.scan", loop.Pos(), "advances by grapheme clusters", "the loop does not advance with textseg.ScanGraphemeClusters: columns no longer count grapheme clusters")
-	c.Check(resliced, "linform", name+":cluster-loop.advance", loop.Pos(), "b = b[advance:]", "the loop does not consume exactly the scanned cluster (b = b[advance:])")
-	if ifs == nil {
-		c.Fail("linform", name+":cluster-loop.newline", loop.Pos(), "the loop has no newline / column distinction")
-		return
-	}
-	// branches: then {end.Line++; end.Column = 1} else {end.Column++}
-	thenS := stmtsString(ifs.Body.List)
-	elseS := ""
-	if blk, ok := ifs.Else.(*ast.BlockStmt); ok {
-		elseS = stmtsString(blk.List)
-	}
-	thenS = strings.ReplaceAll(thenS, endVar+".", "end.")
-	elseS = strings.ReplaceAll(elseS, endVar+".", "end.")
-	c.Check((thenS == "end.Line++;end.Column = 1" || thenS == "end.Column = 1;end.Line++") && elseS == "end.Column++", "linform", name+":cluster-loop.update", ifs.Pos(), "newline: Line++, Column = 1; otherwise Column++",
-		"the per-cluster update is `"+thenS+"` / `"+elseS+"`, not `end.Line++; end.Column = 1` / `end.Column++`")
-	// the newline test on sample clusters
-	samples := []struct {
-		seq  string
-		want bool
-	}{{"\n", true}, {"\r\n", true}, {"a", false}, {"\r", false}, {"é", false}, {"ab", false}, {"\n\n", false}}
-	for _, sm := range samples {
-		got, ok := evalBytePred(pkg, ifs.Cond, seqVar, sm.seq)
-		key := fmt.Sprintf("%s:cluster-loop.newline[%q]", name, sm.seq)
-		if !ok {
-			c.Undecided("linform", key, ifs.Pos(), "cannot interpret the newline test")
-			continue
-		}
-		c.Check(got == sm.want, "linform", key, ifs.Pos(), fmt.Sprintf("test(%q) = %v", sm.seq, got),
-			fmt.Sprintf("the newline test gives %v for the cluster %q (expected %v): line/column of every later token are wrong", got, sm.seq, sm.want))
-	}
-}
-
-func stmtsString(l []ast.Stmt) string {
-	var out []string
-	for _, s := range l {
-		switch x := s.(type) {
-		case *ast.IncDecStmt:
-			out = append(out, exprStr(x.X)+x.Tok.String())
-		case *ast.AssignStmt:
-			if len(x.Lhs) == 1 && len(x.Rhs) == 1 {
-				out = append(out, exprStr(x.Lhs[0])+" "+x.Tok.String()+" "+exprStr(x.Rhs[0]))
-			} else {
-				out = append(out, "?")
-			}
-		default:
-			out = append(out, "?")
-		}
-	}
-	return strings.Join(out, ";")
-}
-
-// evalBytePred interprets a boolean expression over one byte-slice variable bound to a concrete string.
-func evalBytePred(pkg *packages.Package, e ast.Expr, v string, val string) (result bool, ok bool) {
-	defer func() {
-		if recover() != nil {
-			ok = false
-		}
-	}()
-	var ev func(e ast.Expr) constant.Value
-	ev = func(e ast.Expr) constant.Value {
-		if tv, has := pkg.TypesInfo.Types[e]; has && tv.Value != nil {
-			return tv.Value
-		}
-		switch x := e.(type) {
-		case *ast.ParenExpr:
-			return ev(x.X)
-		case *ast.CallExpr:
-			if id, isID := x.Fun.(*ast.Ident); isID && id.Name == "len" && len(x.Args) == 1 && exprStr(x.Args[0]) == v {
-				return constant.MakeInt64(int64(len(val)))
-			}
-		case *ast.IndexExpr:
-			if exprStr(x.X) == v {
-				i, _ := constant.Int64Val(ev(x.Index))
-				if int(i) >= len(val) {
-					panic("index out of range") // Go would panic too; short-circuit evaluation must prevent it
-				}
-				return constant.MakeInt64(int64(val[i]))
-			}
-		case *ast.UnaryExpr:
-			if x.Op == token.NOT {
-				return constant.MakeBool(!constant.BoolVal(ev(x.X)))
-			}
-		case *ast.BinaryExpr:
-			switch x.Op {
-			case token.LAND:
-				if !constant.BoolVal(ev(x.X)) {
-					return constant.MakeBool(false)
-				}
-				return ev(x.Y)
-			case token.LOR:
-				if constant.BoolVal(ev(x.X)) {
-					return constant.MakeBool(true)
-				}
-				return ev(x.Y)
-			case token.EQL, token.NEQ, token.LSS, token.GTR, token.LEQ, token.GEQ:
-				return constant.MakeBool(constant.Compare(ev(x.X), x.Op, ev(x.Y)))
-			}
-		}
-		panic("unsupported")
-	}
-	r := ev(e)
-	return constant.BoolVal(r), true
 }
 
 func c14EOF(c *Ctx) {
@@ -634,4 +164,11 @@ func cellContent(fn *ssa.Function, v ssa.Value) ssa.Value {
 		return v
 	}
 	return last
+}
+
+func c14EOFRule(c *Ctx) {
+	c.Rule("R2 eof: every return of hclsyntax.scanTokens is preceded by emitToken(TokenEOF, len(data), len(data))")
+	c14EOF(c)
+	c.NotCovered("tiling, ordering and gap content of the token stream: produced by the Ragel automaton (scan_tokens.go, ≈ 5 000 generated lines of goto), out of reach of shape rules")
+	c.NotCovered("range fidelity of parser nodes (RangeBetween arithmetic in the parser) and RangeScanner: value-level")
 }
